@@ -1,5 +1,6 @@
 import Model.Framing
 import Lemmas.Framing
+import Lemmas.FramingBodies
 /-!
   C19 — MRT, BMP, RTR, Zebra and BFD codecs decode safely and round-trip.
 
@@ -519,5 +520,313 @@ example : Zapi.recv 6 [0, 12, 254, 6, 0, 0, 0, 0, 0, 23, 1, 2, 9, 9] =
     .framed 12 ⟨12, 254, 6, 0, 23⟩ [1, 2] := by rfl
 example : Zapi.recv 2 [0, 5, 255, 2, 0, 1, 9, 9, 9] = .hdrErr 6 := by rfl
 example : ∀ x ∈ [0, 12, 254, 6, 0, 0, 0, 0, 0, 23, 1, 2, 9, 9], x < 256 := by decide
+
+/-! ## MRT TABLE_DUMPv2 bodies (what mrtWriter.dumpTable writes)
+
+  Path attributes and the NLRIs of RIB_GENERIC families are opaque octet strings here. -/
+
+/-- well-formed PEER_INDEX_TABLE: IPv4 collector id, view name and peer count fit 16 bits, every
+    peer entry is what NewPeer builds (`Mrt.PeerWF`) -/
+def PeerTableWF (t : Mrt.PeerTable) : Prop :=
+  t.collector.length = 4 ∧ t.view.length < 65536 ∧ t.peers.length < 65536 ∧ ∀ p ∈ t.peers, Mrt.PeerWF p
+
+/-- PEER_INDEX_TABLE ROUND TRIP: a well-formed table serialises (no AS error) and
+    parsePeerIndexTable gives it back, leaving what follows untouched. -/
+theorem mrt_peer_table_roundtrip (t : Mrt.PeerTable) (rest : Bytes) (h : PeerTableWF t) :
+    ∃ bs, Mrt.serPeerTable t = some bs ∧ Mrt.parsePeerTable (bs ++ rest) = some (t, rest) := by
+  obtain ⟨c, v, ps⟩ := t
+  obtain ⟨h1, h2, h3, h4⟩ := h
+  simp only [] at *
+  obtain ⟨pb, hs, hp⟩ := Mrt.parsePeers_ser ps rest h4
+  refine ⟨copyInto 4 c ++ enc16 v.length ++ v ++ enc16 ps.length ++ pb, by simp [Mrt.serPeerTable, hs], ?_⟩
+  unfold Mrt.parsePeerTable
+  rw [copyInto4 c h1]
+  simp only [List.append_assoc]
+  rw [getN_append c _ 4 h1]
+  try simp only []
+  rw [getU16_enc _ _ h2]
+  try simp only []
+  rw [getN_append v _ _ rfl]
+  try simp only []
+  rw [getU16_enc _ _ h3]
+  try simp only []
+  rw [hp]
+
+/-- well-formed RIB record for the ADD-PATH flag `ap`; `glen` is the NLRI length the family's
+    decoder reports for a RIB_GENERIC family. IP prefixes: bit length within the address width,
+    ⌈bits/8⌉ octets, trailing bits already cleared. -/
+def RibWF (ap : Bool) (glen : Nat) (r : Mrt.Rib) : Prop :=
+  r.seq < 4294967296 ∧ r.afi < 65536 ∧ r.safi < 256 ∧ ¬ (r.afi = 0 ∧ r.safi = 0) ∧
+  r.entries.length < 65536 ∧ (∀ e ∈ r.entries, Mrt.EntryWF ap e) ∧
+  (if Mrt.isIPFamily r.afi r.safi then
+     ∃ bits p, r.nlri = bits :: p ∧ bits ≤ (if r.afi = 2 then 128 else 32) ∧ p.length = (bits + 7) / 8 ∧
+       (bits % 8 ≠ 0 → Mrt.maskLast (8 - bits % 8) p = p)
+   else r.nlri.length = glen)
+
+/-- RIB RECORD ROUND TRIP under the subtype dumpTable picks (RFC 6396 / RFC 8050): for every
+    family and both ADD-PATH variants, `parseRib (subtypeOf family addPath)` reads back exactly
+    the record `Rib.Serialize` wrote — in particular AFI/SAFI are written exactly for the
+    subtypes under which they are expected (the C19-E class). -/
+theorem mrt_rib_roundtrip (ap : Bool) (glen : Nat) (r : Mrt.Rib) (rest : Bytes) (h : RibWF ap glen r) :
+    Mrt.parseRib (Mrt.subtypeOf r.afi r.safi ap) glen (Mrt.serRib ap r ++ rest) = some (r, rest) := by
+  obtain ⟨seq, afi, safi, nlri, es⟩ := r
+  obtain ⟨h1, h2, h3, h0, h4, h5, h6⟩ := h
+  simp only [] at *
+  have hes := Mrt.parseEntries_ser ap es rest h5
+  by_cases hip : Mrt.isIPFamily afi safi = true
+  · rw [if_pos hip] at h6
+    obtain ⟨bits, p, rfl, hb, hl, hm⟩ := h6
+    have hk : Mrt.ribKind (Mrt.subtypeOf afi safi ap) = some (afi, safi, ap) := by
+      unfold Mrt.isIPFamily at hip
+      simp at hip
+      rcases hip with ⟨ha | ha, hs | hs⟩ <;> subst ha <;> subst hs <;> cases ap <;> rfl
+    have hne : ¬ (afi = 0 ∧ safi = 0) := h0
+    unfold Mrt.parseRib Mrt.serRib
+    rw [hk]
+    simp only [hip, if_true, List.append_nil, List.append_assoc]
+    rw [getU32_enc seq _ h1]
+    simp only [if_neg hne]
+    have hpp : Mrt.parseIPPrefix afi (bits :: p ++ (enc16 es.length ++ (Mrt.serEntries ap es ++ rest))) =
+        some (bits :: p, enc16 es.length ++ (Mrt.serEntries ap es ++ rest)) := by
+      unfold Mrt.parseIPPrefix
+      simp only [List.cons_append, getU8]
+      rw [getN_append p _ _ hl]
+      try simp only []
+      rw [if_neg (by omega)]
+      by_cases hr : bits % 8 = 0
+      · rw [if_pos hr]
+      · rw [if_neg hr, hm hr]
+    rw [hpp, if_pos hip]
+    try simp only []
+    rw [getU16_enc _ _ h4]
+    try simp only []
+    rw [hes]
+  · have hipf : Mrt.isIPFamily afi safi = false := by
+      cases hh : Mrt.isIPFamily afi safi
+      · rfl
+      · exact absurd hh hip
+    rw [hipf] at h6
+    simp only [Bool.false_eq_true, if_false] at h6
+    have hk : Mrt.ribKind (Mrt.subtypeOf afi safi ap) = some (0, 0, ap) := by
+      have hn : ¬ (afi = 1 ∧ safi = 1) ∧ ¬ (afi = 1 ∧ safi = 2) ∧ ¬ (afi = 2 ∧ safi = 1) ∧ ¬ (afi = 2 ∧ safi = 2) := by
+        unfold Mrt.isIPFamily at hipf
+        simp at hipf
+        omega
+      obtain ⟨n1, n2, n3, n4⟩ := hn
+      unfold Mrt.subtypeOf
+      rw [if_neg n1, if_neg n2, if_neg n3, if_neg n4]
+      cases ap <;> rfl
+    unfold Mrt.parseRib Mrt.serRib
+    rw [hk]
+    simp only [hipf, Bool.false_eq_true, if_false, List.append_assoc]
+    rw [getU32_enc seq _ h1]
+    simp only [and_self, if_true]
+    rw [getU16_enc afi _ h2]
+    try simp only []
+    rw [getU8_enc safi _ h3]
+    try simp only []
+    try rw [hipf]
+    try simp only [Bool.false_eq_true, if_false]
+    rw [getN_append nlri _ _ h6]
+    try simp only []
+    rw [getU16_enc _ _ h4]
+    try simp only []
+    rw [hes]
+
+/-- SUBTYPE CONSISTENCY (RFC 6396 4.3.2, RFC 8050 4): the subtype dumpTable picks for a family
+    makes the parser expect AFI/SAFI exactly when Rib.Serialize writes them, keeps the
+    ADD-PATH flag, and for the four IP families implies that very family. -/
+theorem mrt_subtype_consistent (afi safi : Nat) (ap : Bool) :
+    Mrt.ribKind (Mrt.subtypeOf afi safi ap) =
+      some (if Mrt.isIPFamily afi safi then (afi, safi, ap) else (0, 0, ap)) := by
+  by_cases hip : Mrt.isIPFamily afi safi = true
+  · rw [if_pos hip]
+    unfold Mrt.isIPFamily at hip
+    simp at hip
+    rcases hip with ⟨ha | ha, hs | hs⟩ <;> subst ha <;> subst hs <;> cases ap <;> rfl
+  · rw [if_neg hip]
+    have hn : ¬ (afi = 1 ∧ safi = 1) ∧ ¬ (afi = 1 ∧ safi = 2) ∧ ¬ (afi = 2 ∧ safi = 1) ∧ ¬ (afi = 2 ∧ safi = 2) := by
+      unfold Mrt.isIPFamily at hip
+      simp at hip
+      omega
+    obtain ⟨n1, n2, n3, n4⟩ := hn
+    unfold Mrt.subtypeOf
+    rw [if_neg n1, if_neg n2, if_neg n3, if_neg n4]
+    cases ap <;> rfl
+
+/-- RECORD LENGTH: the Length field of the common header MRTMessage.Serialize writes is the
+    body length, the record is header + body, and SplitMrt cuts it off exactly there. -/
+theorem mrt_record_length (ts typ sub : Nat) (body rest : Bytes) (eof : Bool)
+    (h1 : ts < 4294967296) (h2 : typ < 65536) (h3 : sub < 65536) (h4 : body.length < 4294967296)
+    (het : Mrt.hasET typ = false) :
+    (Mrt.serRecord ts typ sub body).length = 12 + body.length ∧
+    Mrt.parseHeader (Mrt.serRecord ts typ sub body) = .ok ⟨ts, typ, sub, body.length, 0⟩ ∧
+    Mrt.split (Mrt.serRecord ts typ sub body ++ rest) eof = .tok (12 + body.length) (Mrt.serRecord ts typ sub body) := by
+  have hw : MrtWF ⟨ts, typ, sub, body.length, 0⟩ := ⟨h1, h2, h3, h4, (by show (0 : Nat) < 4294967296; decide), fun _ => rfl⟩
+  have hlen : (Mrt.serializeHeader ⟨ts, typ, sub, body.length, 0⟩).length = 12 := by
+    have := (mrt_header_roundtrip _ hw).2
+    simpa [het] using this
+  refine ⟨by simp [Mrt.serRecord, hlen], ?_, ?_⟩
+  · unfold Mrt.serRecord
+    simp [Mrt.serializeHeader, Mrt.parseHeader, het, enc16, enc32, be16_enc _ h2, be16_enc _ h3,
+      be32_enc _ h1, be32_enc _ h4]
+  · exact mrt_split_frames_record ⟨ts, typ, sub, body.length, 0⟩ body rest eof hw het rfl
+
+/-- ATTRIBUTION (the C19-D class): after writing and reading back a peer table and a RIB
+    record, entry `i` of the record is attributed to the very peer entry the daemon's table
+    holds at that entry's peer index — address, BGP id, AS and type octet. -/
+theorem mrt_attribution_roundtrip (t : Mrt.PeerTable) (r : Mrt.Rib) (ap : Bool) (glen : Nat) (i : Nat)
+    (ht : PeerTableWF t) (hr : RibWF ap glen r) :
+    ∃ tb, Mrt.serPeerTable t = some tb ∧
+      ∃ t' r', Mrt.parsePeerTable tb = some (t', []) ∧
+        Mrt.parseRib (Mrt.subtypeOf r.afi r.safi ap) glen (Mrt.serRib ap r) = some (r', []) ∧
+        Mrt.entryPeer t' r' i = Mrt.entryPeer t r i := by
+  obtain ⟨tb, hs, hp⟩ := mrt_peer_table_roundtrip t [] ht
+  have hrr := mrt_rib_roundtrip ap glen r [] hr
+  simp only [List.append_nil] at hp hrr
+  exact ⟨tb, hs, t, r, hp, hrr, rfl⟩
+
+example : PeerTableWF ⟨[1, 1, 1, 1], [], [Mrt.mkPeer [2, 2, 2, 2] [10, 0, 0, 2] 65002 true,
+    Mrt.mkPeer [5, 5, 5, 5] (List.replicate 16 9) 65005 false]⟩ := by
+  refine ⟨rfl, by simp, by simp, ?_⟩
+  intro p hp
+  simp at hp
+  rcases hp with rfl | rfl <;> simp [Mrt.mkPeer, Mrt.PeerWF]
+example : RibWF true 0 ⟨7, 1, 2, [20, 10, 84, 96], [⟨1, 1700000000, 21, [64, 1, 1, 0]⟩]⟩ := by
+  refine ⟨by decide, by decide, by decide, by decide, by decide, ?_, ?_⟩
+  · intro e he
+    simp at he
+    subst he
+    simp [Mrt.EntryWF]
+  · rw [if_pos (by rfl)]
+    exact ⟨20, [10, 84, 96], rfl, by decide, rfl, fun _ => rfl⟩
+example : RibWF false 12 ⟨7, 1, 128, List.replicate 12 3, []⟩ := by
+  refine ⟨by decide, by decide, by decide, by decide, by decide, by simp, ?_⟩
+  rw [if_neg (by decide)]
+  rfl
+example : Mrt.subtypeOf 1 2 true = 9 ∧ Mrt.subtypeOf 25 70 false = 6 := by decide
+
+/-! ## MRT BGP4MP records (what the mrtWriter loop writes) -/
+
+/-- BGP4MP STATE CHANGE ROUND TRIP (BGP4MP_STATE_CHANGE = 0 and _AS4 = 5). -/
+theorem mrt_bgp4mp_state_roundtrip (as4 : Bool) (h : Mrt.Bgp4mpHdr) (o n : Nat)
+    (hw : Mrt.Bgp4mpHdrWF as4 h) (ho : o < 65536) (hn : n < 65536) :
+    ∃ bs, Mrt.serBgp4mp as4 (.state h o n) = some bs ∧
+      Mrt.parseBgp4mp (if as4 then 5 else 0) bs = some (.state h o n) := by
+  obtain ⟨hb, hs, hp⟩ := Mrt.parseBgp4mpHdr_ser as4 h (enc16 o ++ enc16 n) hw
+  refine ⟨hb ++ enc16 o ++ enc16 n, by simp [Mrt.serBgp4mp, hs], ?_⟩
+  have hk : Mrt.bgp4mpKind (if as4 then 5 else 0) = some (true, as4) := by cases as4 <;> rfl
+  unfold Mrt.parseBgp4mp
+  rw [hk]
+  simp only [List.append_assoc]
+  rw [hp]
+  simp only [if_true]
+  rw [getU16_enc o _ ho]
+  try simp only []
+  rw [getU16_enc_nil n hn]
+
+/-- BGP4MP MESSAGE ROUND TRIP for every message subtype (_AS4, _LOCAL, _ADDPATH variants): peer
+    AS width as the subtype says, and THE EMBEDDED BGP MESSAGE IS FRAMED BY ITS OWN HEADER
+    LENGTH — the parser returns exactly the message octets. -/
+theorem mrt_bgp4mp_message_roundtrip (sub : Nat) (as4 : Bool) (h : Mrt.Bgp4mpHdr) (body : Bytes)
+    (hk : Mrt.bgp4mpKind sub = some (false, as4)) (hw : Mrt.Bgp4mpHdrWF as4 h)
+    (h1 : 1 ≤ body.length) (h2 : 18 + body.length < 65536) :
+    ∃ bs, Mrt.serBgp4mp as4 (.message h (mkBgpMsg body)) = some bs ∧
+      Mrt.parseBgp4mp sub bs = some (.message h (mkBgpMsg body)) := by
+  obtain ⟨hb, hs, hp⟩ := Mrt.parseBgp4mpHdr_ser as4 h (mkBgpMsg body) hw
+  refine ⟨hb ++ mkBgpMsg body, by simp [Mrt.serBgp4mp, hs], ?_⟩
+  unfold Mrt.parseBgp4mp
+  rw [hk]
+  simp only []
+  rw [hp]
+  simp only [Bool.false_eq_true, if_false]
+  rw [bgpFrame_mk_nil body h1 h2]
+
+/-- the subtype eventToMrtMsg picks selects the AS width it was given -/
+theorem mrt_bgp4mp_subtype_kind (as4 ap : Bool) :
+    Mrt.bgp4mpKind (Mrt.bgp4mpSubtype as4 ap) = some (false, as4) := by
+  cases as4 <;> cases ap <;> rfl
+
+example : Mrt.Bgp4mpHdrWF true ⟨4200000001, 65001, 0, 2, List.replicate 16 1, List.replicate 16 2⟩ := by
+  refine ⟨by decide, by decide, by decide, Or.inr ⟨rfl, rfl, rfl⟩⟩
+example : Mrt.bgp4mpKind 9 = some (false, true) := by rfl
+
+/-! ## BMP bodies the daemon writes: Route Monitoring, Peer Up, Peer Down -/
+
+/-- ROUTE MONITORING: the body is the embedded UPDATE, framed by its own header length. -/
+theorem bmp_route_monitoring_roundtrip (body : Bytes) (h1 : 1 ≤ body.length) (h2 : 18 + body.length < 65536) :
+    Bmp.parseBody2 0 (Bmp.serBody2 (.routeMon (mkBgpMsg body))) = some (.routeMon (mkBgpMsg body)) := by
+  unfold Bmp.parseBody2
+  simp only [Bmp.serBody2]
+  simp only [if_true]
+  rw [bgpFrame_mk_nil body h1 h2]
+
+/-- PEER UP (without information TLVs, as bmpPeerUp sends it): local address, ports, and the two
+    OPEN messages, each framed by its own header length — the second starts where the first ends. -/
+theorem bmp_peer_up_roundtrip (la sent recv : Bytes) (lp rp : Nat)
+    (hla : la.length = 16) (hlp : lp < 65536) (hrp : rp < 65536)
+    (hs : 1 ≤ sent.length) (hr : 1 ≤ recv.length) (hlen : 36 + sent.length + recv.length < 65536) :
+    Bmp.parseBody2 3 (Bmp.serBody2 (.peerUp la lp rp (mkBgpMsg sent) (mkBgpMsg recv) [])) =
+      some (.peerUp la lp rp (mkBgpMsg sent) (mkBgpMsg recv) []) := by
+  unfold Bmp.parseBody2
+  simp only [Bmp.serBody2]
+  rw [if_neg (by decide), if_pos trivial, copyInto_exact 16 la hla]
+  simp only [Bmp.serTlvs, List.append_nil, List.append_assoc]
+  rw [getN_append la _ 16 hla]
+  try simp only []
+  rw [getU16_enc lp _ hlp]
+  try simp only []
+  rw [getU16_enc rp _ hrp]
+  try simp only []
+  rw [bgpFrame_mk sent (mkBgpMsg recv) hs (by simp [mkBgpMsg, enc16]; omega)]
+  try simp only []
+  rw [bgpFrame_mk_nil recv hr (by omega)]
+  simp
+
+/-- PEER DOWN with a NOTIFICATION (reasons 1 and 3) and with opaque data (every other reason but
+    6): the reason octet, then the message framed by its own length / the data as it is. -/
+theorem bmp_peer_down_roundtrip (reason : Nat) (body data : Bytes) (hr : reason < 256)
+    (h1 : 1 ≤ body.length) (h2 : 18 + body.length < 65536) :
+    ((reason = 1 ∨ reason = 3) →
+      Bmp.parseBody2 2 (Bmp.serBody2 (.peerDownMsg reason (mkBgpMsg body))) = some (.peerDownMsg reason (mkBgpMsg body))) ∧
+    (reason ≠ 1 → reason ≠ 3 → reason ≠ 6 →
+      Bmp.parseBody2 2 (Bmp.serBody2 (.peerDownData reason data)) = some (.peerDownData reason data)) := by
+  constructor
+  · intro hre
+    unfold Bmp.parseBody2
+    simp only [Bmp.serBody2]
+    rw [if_neg (by decide), if_neg (by decide), if_pos trivial, getU8_enc reason _ hr]
+    simp only [if_pos hre]
+    rw [bgpFrame_mk_nil body h1 h2]
+  · intro n1 n3 n6
+    unfold Bmp.parseBody2
+    simp only [Bmp.serBody2]
+    rw [if_neg (by decide), if_neg (by decide), if_pos trivial, getU8_enc reason _ hr]
+    try simp only []
+    rw [if_neg (by omega), if_neg n6]
+
+example : (mkBgpMsg [4]).length = 19 := by rfl
+example : bgpFrame (mkBgpMsg [4] ++ [9, 9]) = some (mkBgpMsg [4], [9, 9]) := by rfl
+
+/-! ## the other direction: what the parsers accept re-serialises to the very same octets -/
+
+/-- PEER_INDEX_TABLE, serialize ∘ parse = id on the accepted set: whatever parsePeerIndexTable
+    accepts (any octet string) serialises back to exactly the octets it consumed. -/
+theorem mrt_peer_table_serialize_parse (d r : Bytes) (t : Mrt.PeerTable)
+    (h : Mrt.parsePeerTable d = some (t, r)) (ho : Octets d) :
+    ∃ bs, Mrt.serPeerTable t = some bs ∧ bs ++ r = d :=
+  parsePeerTable_inv d r t h ho
+
+/-- RIB ENTRIES (plain and ADD-PATH), serialize ∘ parse = id on the accepted set, and the parser
+    returns exactly the announced number of entries. -/
+theorem mrt_rib_entries_serialize_parse (ap : Bool) (n : Nat) (d r : Bytes) (es : List Mrt.Entry)
+    (h : Mrt.parseEntries ap n d = some (es, r)) (ho : Octets d) :
+    Mrt.serEntries ap es ++ r = d ∧ es.length = n :=
+  parseEntries_inv ap n d r es h ho
+
+example : Mrt.parsePeerTable [1, 1, 1, 1, 0, 0, 0, 1, 2, 2, 2, 2, 2, 10, 0, 0, 2, 0, 0, 253, 234, 7] =
+    some (⟨[1, 1, 1, 1], [], [⟨2, [2, 2, 2, 2], [10, 0, 0, 2], 65002⟩]⟩, [7]) := by rfl
+example : Mrt.parseEntries true 1 [0, 1, 0, 0, 0, 9, 0, 0, 0, 21, 0, 2, 64, 1] =
+    some ([⟨1, 9, 21, [64, 1]⟩], []) := by rfl
 
 end C19
